@@ -500,8 +500,21 @@ func c16ArgLists() [][]stick.Value {
 		}
 	}
 	res = append(res, []stick.Value{1.0, 2.0, 3.0})
+	if c16Thorough { // every argument list of length 3 as well
+		for _, a := range atoms {
+			for _, b := range atoms {
+				for _, c := range atoms {
+					res = append(res, []stick.Value{a, b, c})
+				}
+			}
+		}
+	}
 	return res
 }
+
+// c16Thorough is set by the level generator (and, in workers, re-derived from the case: argument-list indices beyond
+// the quick tier's 32 lists only exist in the thorough tier)
+var c16Thorough bool
 
 func tryGetAttr(v, k stick.Value, args []stick.Value) (res stick.Value, err error, pan string) {
 	defer func() {
@@ -514,6 +527,9 @@ func tryGetAttr(v, k stick.Value, args []stick.Value) (res stick.Value, err erro
 }
 
 func c16Attr(ci, ki, ai int) core.Result {
+	if ai >= 32 {
+		c16Thorough = true
+	}
 	conts, keys, als := c16Containers(), c16Keys(), c16ArgLists()
 	if ci >= len(conts) || ki >= len(keys) || ai >= len(als) {
 		return core.Skipped("index")
@@ -1071,13 +1087,14 @@ func c16SameName(perm int) core.Result {
 }
 
 func c16Levels(tier string) []core.Level {
+	c16Thorough = thorough(tier)
 	return []core.Level{
 		{Name: "three struct types of the same printed name and different layouts, looked up in every order (a cache keyed by the type's name would confuse them)", Gen: func(emit func(core.Case)) {
 			for p := 0; p < 18; p++ {
 				emit(core.Case{Fam: "samename", N: []int{p}})
 			}
 		}},
-		{Name: "GetAttr: every container x every key x every argument list of length 0..2 (+ one of length 3)", Gen: func(emit func(core.Case)) {
+		{Name: "GetAttr: every container x every key x every argument list of length 0..2 (+ one of length 3; thorough: every list of length 3)", Gen: func(emit func(core.Case)) {
 			nc, nk, na := len(c16Containers()), len(c16Keys()), len(c16ArgLists())
 			for a := 0; a < na; a++ { // simplest first: no arguments
 				for c := 0; c < nc; c++ {
